@@ -20,9 +20,9 @@ type ctor func() (mangos.Socket, error)
 
 func init() {
 	vexplore.Register("C05", func(tier string) []*vexplore.Scenario {
-		d, dr, b := 5, 5, 1
+		d, dr, b := 5, 5, 2
 		if tier == "thorough" {
-			d, dr, b = 6, 6, 2
+			d, dr, b = 6, 7, 3
 		}
 		var out []*vexplore.Scenario
 		for _, k := range []struct {
